@@ -290,11 +290,11 @@ PROPS = {
         "level": "other",
         "rules": [("DP", 12, has("from_sexpr", "VTreeSerializer", "from_dimacs", "to_dimacs")), ("IC", 1, has("from_dimacs")),
                   ("CP", 6, has("serialize::")), ("CN", 1, has("repr::cnf::")), ("SR", 3, None), ("LE", 7, None),
-                  ("NC", 4, has("from_dimacs"))],
+                  ("NC", 4, has("from_dimacs")), ("SP", 0, has("SP1:serialize", "SP1:ffi::bdd::bdd_to_json"))],
         "explanation": "The s-expression translation and the vtree mirror map each variant to its namesake with children in "
                        "order (DP); DIMACS signs map Neg to false and Pos to true in both parsers (DP); the CNF parser "
                        "subtracts one from the 1-based DIMACS variable (IC OneBased -> Index). Not decided: model-level "
-                       "equality of parsed formulas; JSON well-formedness (serde). Added: in the s-expression parser every special case of a negated operand still denotes the negation (Not(Not e) may only shortcut to e). Added after the fourth seeding round: the DIMACS readers keep every clause and every literal of the text (NC: every iteration of a loop over the items pushes onto its accumulator; an iterator chain from the items to collect() has no filter/skip/take/dedup) - a dropped clause gives the result extra models while everything downstream stays consistent.",
+                       "equality of parsed formulas; JSON well-formedness (serde). Added: in the s-expression parser every special case of a negated operand still denotes the negation (Not(Not e) may only shortcut to e). Added after the fourth seeding round: the DIMACS readers keep every clause and every literal of the text (NC: every iteration of a loop over the items pushes onto its accumulator; an iterator chain from the items to collect() has no filter/skip/take/dedup) - a dropped clause gives the result extra models while everything downstream stays consistent. The serialisers keep their node-to-row table in a per-call map; should one of them start to use the per-node scratch slot instead, it falls under the leak rule of C10 (SP1: every externally reachable function that sets scratch clears it on every path to return) - row indices that survive a call refer to the previous call's table (floor 0: no such instance today).",
     },
     "C18": {
         "level": "proof",
